@@ -161,8 +161,14 @@ def t_default_spec():
 					path = os.path.join(d, fmt['name'])
 					write(path, seqs, fmt)
 					sh.evals += 1
-					got = sig_of(path, ks)
-					os.unlink(path)
+					dcase = dict(subset='default-spec', order=list(order), orient=list(orient), fmt=dict(fmt), k=11, prefix='ATGAC')
+					try:
+						got = sig_of(path, ks)
+					except Exception as e:
+						sh.violation('parse-failed', dcase, exp, repr(e))
+						continue
+					finally:
+						os.unlink(path)
 					if got.tolist() != exp or str(got.dtype) != 'uint32':
 						sh.violation('not-union-of-contig-signatures', dict(subset='default-spec', order=list(order), orient=list(orient), fmt=dict(fmt), k=11, prefix='ATGAC'), exp, got.tolist())
 					sh.nontrivial += 1
